@@ -336,6 +336,15 @@ func execConcurrency(t *testing.T, p *Plan) *Result {
 	return r
 }
 
+// conservationRules: rules of the borrowed worlds that state C09's "no message is lost, doubled or misdelivered".
+var conservationRules = map[string]bool{
+	"C12:final-answer-not-relayed": true, "C12:answer-not-on-request-connection": true,
+	"C10:intact-datagram-not-relayed-once": true,
+	"C05:history-not-linearizable": true,
+	"C19:dispatch-count": true,
+	"C04:in-dialog-request-sent-to-several-backends": true,
+}
+
 // execBorrowed runs another property's world under the race detector and
 // keeps only what C09 is about: race reports, panics, wedged goroutines.
 func execBorrowed(t *testing.T, p *Plan) *Result {
@@ -356,6 +365,12 @@ func execBorrowed(t *testing.T, p *Plan) *Result {
 			if v.Rule == "panic" {
 				v.Sig = panicSig(v.Detail)
 			}
+			keep = append(keep, v)
+		} else if v.Prop == id && conservationRules[id+":"+v.Rule] && !strings.Contains(v.Sig, "crossListener=true") && (v.Rule != "history-not-linearizable" || strings.Contains(v.Sig, "dispatch-went-nowhere")) {
+			// "nor loses messages: every request still reaches exactly one backend of its listener and every
+			// response returns to its sender" - what the borrowed world's own oracle says about exactly that
+			v.Sig = id + ":" + v.Rule + ";" + v.Sig
+			v.Prop, v.Rule = "C09", "conservation"
 			keep = append(keep, v)
 		}
 	}
